@@ -94,7 +94,7 @@ def main():
                         break
                     if c.returncode == 2:
                         hit = 'inconclusive'
-                (fired if hit is True else silent).append(prop if hit is not 'inconclusive' else prop + '(inconclusive)')
+                (fired if hit is True else silent).append(prop if hit != 'inconclusive' else prop + '(inconclusive)')
             verdict = 'CAUGHT' if s['props'][0] in fired else ('caught-by-other' if fired else 'MISSED')
             results.append((s['name'], verdict, 'fired=%s silent=%s %s %.0fs' % (fired, silent, base, time.time() - t0)))
             print('%-45s %-16s fired=%s silent=%s %s' % (s['name'], verdict, ','.join(fired), ','.join(silent), base))
